@@ -14,11 +14,17 @@ for m in sorted(glob.glob(os.path.join(V, "seeded", "*", "meta.json"))):
     title = (d.get("title") or "").replace("|", "/")[:110]
     needs = (d.get("needs_to_manifest") or "").replace("|", "/").replace("\n", " ")[:120]
     rows.append(f"| {sid} | {title} | {needs} | {', '.join(det) or '**missed**'} | `{rule}` |")
-table = ("| id | change (independent sub-agent) | needs to manifest | reported by | first rule of the own property |\n|---|---|---|---|---|\n" + "\n".join(rows) + "\n")
+HEAD = "| id | change (independent sub-agent) | needs to manifest | reported by | first rule of the own property |\n|---|---|---|---|---|\n"
+r1 = [r for r in rows if "-r2-" not in r.split("|")[1]]
+r2 = [r for r in rows if "-r2-" in r.split("|")[1]]
+table = ("| id | change (independent sub-agent) | needs to manifest | reported by | first rule of the own property |\n|---|---|---|---|---|\n" + "\n".join(r1) + "\n")
 p = os.path.join(V, "DESIGN.md")
 s = open(p).read()
 a, b = "<!-- SEEDED-TABLE-BEGIN -->", "<!-- SEEDED-TABLE-END -->"
 if a in s:
     s = s[: s.index(a) + len(a)] + "\n" + table + s[s.index(b):]
-    open(p, "w").write(s)
+a, b = "<!-- SEEDED2-TABLE-BEGIN -->", "<!-- SEEDED2-TABLE-END -->"
+if a in s:
+    s = s[: s.index(a) + len(a)] + "\n" + HEAD + "\n".join(r2) + "\n" + s[s.index(b):]
+open(p, "w").write(s)
 print(len(rows), "rows")
